@@ -49,6 +49,20 @@ def rust_str(s, style=None) -> str:
     return "".join(out)
 
 
+# ---------------------------------------------------------------- macro_rules! rendering
+# When an item is rendered `via_macro`, every literal VALUE inside its #[strum(..)] attributes is passed in as a macro fragment
+# (`$f3:expr` / `$f4:literal`, alternating): rustc hands such a value to the derive wrapped in an invisible group, which an attribute
+# parser that pattern-matches on the expression kind does not see through.
+_FRAGS = None
+
+
+def frag(text: str) -> str:
+    if _FRAGS is None:
+        return text
+    _FRAGS.append(text)
+    return "$f%d" % (len(_FRAGS) - 1)
+
+
 # ---------------------------------------------------------------- variant-level metas
 @dataclass
 class VM:
@@ -90,13 +104,13 @@ class VM:
         names = {"ser": "serialize", "tos": "to_string", "msg": "message", "det": "detailed_message",
                  "dw": "default_with"}
         if k in names:
-            return "%s = %s" % (names[k], rust_str(self.s, self.style))
+            return "%s = %s" % (names[k], frag(rust_str(self.s, self.style)))
         if k in ("transparent", "disabled", "default"):
             return k
         if k == "aci":
             if self.b and not self.explicit:
                 return "ascii_case_insensitive"
-            return "ascii_case_insensitive = %s" % ("true" if self.b else "false")
+            return "ascii_case_insensitive = %s" % frag("true" if self.b else "false")
         if k == "props":
             parts = []
             for key, val in self.props:
@@ -140,7 +154,7 @@ class EM:
     def rust(self) -> str:
         k = self.kind
         if k == "sall":
-            return "serialize_all = %s" % rust_str(self.s)
+            return "serialize_all = %s" % frag(rust_str(self.s))
         if k == "aci":
             return "ascii_case_insensitive"
         if k == "crate":
@@ -148,7 +162,7 @@ class EM:
         if k == "phf":
             return "use_phf"
         if k == "prefix":
-            return "prefix = %s" % rust_str(self.s)
+            return "prefix = %s" % frag(rust_str(self.s))
         if k == "pety":
             return "parse_err_ty = %s" % self.s
         if k == "pefn":
@@ -330,6 +344,19 @@ def generics_decl(it: Item, bounds: str = "") -> Tuple[str, str, str]:
 
 def render_item(it: Item, derives: List[str], bounds: str = "", extra_attrs: List[str] = ()) -> str:
     """Rust source of the item with the given derive list (paths like `strum::EnumString`)."""
+    global _FRAGS
+    if getattr(it, "via_macro", False) and _FRAGS is None:
+        _FRAGS = []
+        try:
+            body = render_item(it, derives, bounds, extra_attrs)
+            frags = _FRAGS
+        finally:
+            _FRAGS = None
+        if not frags:
+            return body
+        params = ", ".join("$f%d:%s" % (i, "expr" if i % 2 == 0 else "literal") for i in range(len(frags)))
+        mname = "mk_%s" % unraw(it.ident).lower()
+        return "macro_rules! %s { (%s) => {\n%s\n} }\n%s!(%s);" % (mname, params, body, mname, ", ".join(frags))
     lines = []
     if derives:
         lines.append("#[derive(%s)]" % ", ".join(derives))
@@ -423,3 +450,13 @@ impl<'q> Into<String> for &'q str { fn into(self) -> String { String::from("host
 def hostile_wrap(item_src: str, names) -> str:
     body = "\n".join(HOSTILE[n] for n in names)
     return ("pub use self::shadow::*;\npub mod shadow {\n#![allow(unused_imports, dead_code, non_snake_case)]\nuse super::*;\n%s\n%s\n}" % (body, item_src))
+
+
+def plain_source(it: Item) -> str:
+    """the item as syn sees it after macro expansion: no derive list, no macro_rules! wrapper (for the generator probe)"""
+    vm = getattr(it, "via_macro", False)
+    it.via_macro = False
+    try:
+        return render_item(it, [])
+    finally:
+        it.via_macro = vm
